@@ -469,14 +469,22 @@ func (fv *FuncVC) bitwise(op token.Token, a, b *Val, t types.Type) *Val {
 		size := new(big.Int).Add(new(big.Int).Sub(hi, lo), big.NewInt(1))
 		c = new(big.Int).Add(c, size)
 	}
+	if !cok && op == token.OR && a.bitMask != nil && b.bitMask != nil && new(big.Int).And(a.bitMask, b.bitMask).Sign() == 0 {
+		// (x &^ m) | (y & m) and the like: the operands cannot both have a bit set, so OR is addition
+		return &Val{T: fmt.Sprintf("(+ %s %s)", a.T, b.T), Typ: t, bitMask: new(big.Int).Or(a.bitMask, b.bitMask)}
+	}
 	if cok {
 		andt := bitAndConst(x.T, c)
 		if op == token.AND_NOT && bok {
-			return &Val{T: fmt.Sprintf("(- %s %s)", a.T, andt), Typ: t}
+			var m *big.Int
+			if hi != nil && lo.Sign() == 0 {
+				m = new(big.Int).AndNot(hi, c) // bits of the type's width not in c
+			}
+			return &Val{T: fmt.Sprintf("(- %s %s)", a.T, andt), Typ: t, bitMask: m}
 		}
 		switch op {
 		case token.AND:
-			return &Val{T: andt, Typ: t}
+			return &Val{T: andt, Typ: t, bitMask: new(big.Int).Set(c)}
 		case token.OR:
 			return &Val{T: fmt.Sprintf("(- (+ %s %s) %s)", x.T, c.String(), andt), Typ: t}
 		case token.XOR:
